@@ -51,7 +51,9 @@ def c10a(ctx, tu):
                    detail="" if ok else "the printer paired with %s must print '%s'; prints %s" % (name, opstr.strip(), strs))
         # the public factory builds its matcher from this predicate and this printer
         for fn in tu.find("trompeloeil::" + factory):
-            s = str([e for b, e in fn.events() if e["e"] == "return"])
+            # (everything the factory evaluates on its way to the result, wherever the construction is spelled)
+            s = str([{k: v for k, v in e.items() if k in ("x", "args", "rhs", "init", "q", "type")} for b, e in fn.events()
+                     if e["e"] in ("return", "call", "ctor", "assign", "decl")])
             ok = ("trompeloeil::make_matcher" in s and (L + name + "'") in s.replace('"', "'") and
                   (L + name + "_printer'") in s.replace('"', "'"))
             # and from no other comparison
